@@ -163,7 +163,10 @@ func c15Outgoing(w *World, r *Report) {
 		n++
 		r.Analysed(w.FnName(fn))
 		key := w.FnName(fn)
-		isOutHdr := func(v ssa.Value) bool { _, p := accessPath(v); return len(p) >= 2 && p[len(p)-2] == "Out" && p[len(p)-1] == "Header" }
+		isOutHdr := func(v ssa.Value) bool {
+			_, p := accessPath(v)
+			return len(p) >= 2 && p[len(p)-2] == "Out" && p[len(p)-1] == "Header"
+		}
 		okM, okU, okH := false, false, false
 		bodyWrite := false
 		eachInstr(fn, func(in ssa.Instruction) {
